@@ -23,8 +23,10 @@ def holdsAll (c : Case) (nch : Nat) (t : List Ev) : List (String × Bool) :=
    -- C01 every functional check also evaluates (a panic is never an acceptable answer)
    ("NP", c01NoPanic t),
    -- "not stuck": the harness's fair wake-only executor (profile `drain`) logs `answer 98 0` when the
-   -- combinator is still Pending although the task was not woken and no child is waiting
-   ("LV", !t.any (· == .answer 98 0)),
+   -- combinator is still Pending although the task was not woken and no child that has not already
+   -- invoked its waker is waiting, or when the run exceeds its round budget; the harness's watchdog
+   -- logs `answer 97 0` when a case stops making progress altogether (a deadlock)
+   ("LV", !t.any (fun e => e == .answer 98 0 || e == .answer 97 0)),
    ("C02", holds_C02 (!c.fam.isGroup) nch t),
    ("C03", holds_C03 c.fam.isGroup t)]
   ++ (if c.inC16 then [("C16", holds_C16 t)] else [])
